@@ -346,6 +346,38 @@ func (fr *Frame) resolveLocal(name string) (ssa.Value, bool) {
 			}
 		}
 	}
+	if _, isC := best.(*ssa.Const); haveBest && isC && len(points) > 1 {
+		// the only definition that reaches every exit is the variable's zero initialisation, and a
+		// real assignment reaches some of them (var x T; ...; x = f()): a clause about x speaks
+		// about the exits the assignment reaches (it is guarded by a condition that excludes the
+		// others); use the assignment that dominates most exits
+		var alt ssa.Value
+		altN := 0
+		for _, c := range cands {
+			if _, isC := c.(*ssa.Const); isC {
+				continue
+			}
+			if _, have := fr.vals[c]; !have {
+				continue
+			}
+			cb := blockOf(c)
+			if cb == nil {
+				continue
+			}
+			n := 0
+			for _, p := range points {
+				if cb.Dominates(p) {
+					n++
+				}
+			}
+			if n > altN {
+				alt, altN = c, n
+			}
+		}
+		if alt != nil {
+			best = alt
+		}
+	}
 	if !haveBest {
 		// no definition dominates every exit: the variable is only meaningful on some paths; use the
 		// deepest executed definition (on other paths its value is simply unconstrained)
